@@ -125,5 +125,43 @@ func fixedDescs() []Desc {
 			FirstLen: 1,
 		},
 	})
+
+	// 7. fMP4: the init section declares a MPEG-1 audio track (a codec the client filters out of
+	//    OnTracks) between the H264 and the MPEG-4 audio track; every fragment carries a traf for
+	//    it, and one for track ID 9 that the init section does not declare, at varying positions
+	//    among the supported tracks' trafs: tracks = H264, MPEG-4 audio; all 9 + 9 samples are
+	//    delivered and the client reaches the end of the stream
+	{
+		var segs []SegDesc
+		id := 0
+		xid := 1000
+		for k := 0; k < 3; k++ {
+			mk := func(track int, base, dur int64, ids *int) PartTrackDesc {
+				pt := PartTrackDesc{Track: track, Base: base}
+				for i := 0; i < 3; i++ {
+					pt.Samples = append(pt.Samples, SampleDesc{Dur: dur, ID: *ids})
+					*ids++
+				}
+				return pt
+			}
+			v := mk(0, 90000*2+int64(k)*9000, 3000, &id)
+			a := mk(1, 48000*2+int64(k)*4800, 1600, &id)
+			m := mk(-1, 44100*2+int64(k)*4410, 1470, &xid)
+			t := mk(-2, 1000*2+int64(k)*100, 33, &xid)
+			order := [][]PartTrackDesc{{v, m, a, t}, {m, t, a, v}, {t, a, v, m}}[k]
+			segs = append(segs, SegDesc{HasDate: true, Date: date + int64(k)*100000000, DurNs: 100000000,
+				Parts: []PartDesc{{Tracks: order}}})
+		}
+		out = append(out, Desc{
+			Kind: "fmp4", Mode: "vod", Addr: "whole", PDT: "all", MediaSeq: 0,
+			Leading: StreamDesc{
+				Tracks: []TrackDesc{{ID: 1, TimeScale: 90000, Codec: "h264"}, {ID: 3, TimeScale: 48000, Codec: "aac"}},
+				Unsup: []UnsupDesc{{Codec: "mp3", Before: 1, ID: 2, TimeScale: 44100},
+					{Codec: "none", Absent: true, ID: 9, TimeScale: 1000}},
+				Segs:     segs,
+				FirstLen: 3,
+			},
+		})
+	}
 	return out
 }
